@@ -177,6 +177,15 @@ pub mod gs {
     pub open spec fn conflict(of: Seq<File>, s: Seq<FileId>) -> bool {
         exists|j: int| 0 <= j < s.len() && ix(#[trigger] s[j]) < of.len() && of[ix(s[j])].input is Some
     }
+    pub open spec fn files_ext(f0: Seq<File>, f1: Seq<File>) -> bool {
+        f0.len() <= f1.len() && (forall|f: int| 0 <= f < f0.len() ==> #[trigger] f1[f] == f0[f])
+        && (forall|f: int| f0.len() <= f < f1.len() ==> (#[trigger] f1[f]).input is None && f1[f].dependents@.len() == 0)
+    }
+    pub open spec fn same_except_discovered(a: Build, b: Build) -> bool {
+        a.ins == b.ins && a.outs == b.outs && a.cmdline == b.cmdline && a.rspfile == b.rspfile
+        && a.pool == b.pool && a.depfile == b.depfile && a.desc == b.desc && a.location == b.location
+        && a.parse_showincludes == b.parse_showincludes && a.hide_success == b.hide_success && a.hide_progress == b.hide_progress
+    }
     pub open spec fn same_except_outs(a: Build, b: Build) -> bool {
         a.ins == b.ins && a.discovered_ins == b.discovered_ins && a.cmdline == b.cmdline && a.rspfile == b.rspfile
         && a.pool == b.pool && a.depfile == b.depfile && a.desc == b.desc && a.location == b.location
